@@ -9,12 +9,14 @@ TLC design level : Aggregator.tla (K reporters, bounded queue, blocking / droppi
 M2 (spec->code)  : PhoutCases.tla enumerates the abstract case space of the phout line format with the
                    expected columns computed by TLC (PhoutLine); `vdrive aggcases` renders each case
                    through the real phout aggregator; expected == observed columns.
-M1 (code->spec)  : `vdrive agg` drives the real phout (afero mem file) and jsonlines (buffer sink)
-                   aggregators with K goroutines / queue sizes / flush intervals / seeded cancel, and full
-                   engine runs with mock guns; TraceAggregator.tla checks every recorded step.
+M1 (code->spec)  : `vdrive agg` drives the real phout / jsonlines / log / discard / test aggregators (made by their
+                   constructors or by config.Decode through the registered factories, on recording - and
+                   fault-injecting - sinks) with K goroutines / queue sizes / flush intervals / seeded cancel, and
+                   full engine runs with mock guns; TraceAggregator.tla checks every recorded step.
 Process level    : `vdrive aggsig` stops real pandora processes (vpandora = real cli.Run + counting
-                   wrapper) with SIGINT / SIGTERM at seeded instants; TraceShutdown.tla checks the final
-                   predicate of Shutdown.tla on what was left on disk.
+                   wrapper) with SIGINT / SIGTERM (once, twice, during start-up, with a blocked or crawling sink)
+                   or SIGHUP / SIGQUIT at seeded instants, or lets them write to /dev/full; TraceShutdown.tla
+                   checks the final predicates of Shutdown.tla on what was left on disk.
 """
 import concurrent.futures
 import json
@@ -29,32 +31,39 @@ PID = "C06"
 
 MANIFEST = dict(
     category="model_checking",
-    technique="explicit TLA+ models of the aggregator Run loop and of the CLI shutdown checked exhaustively with "
-              "TLC (with negative controls), bound to the code by trace validation of real aggregator executions "
-              "and of real pandora processes stopped by signals, and by replaying the TLC-enumerated phout "
-              "format case space through the real aggregator",
+    technique="explicit TLA+ models of the aggregator Run loop (every shipped kind, working and failing sinks) and of the "
+              "CLI shutdown checked exhaustively with TLC (with negative controls), bound to the code by trace validation "
+              "of real aggregator executions (made by constructors and through the registered plugin factories) and of "
+              "real pandora processes stopped by signals, and by replaying the TLC-enumerated phout format case space "
+              "through the real aggregator",
     design_ref="DESIGN.md §4 C06",
-    text="Aggregator.tla models reporters, the bounded queue (blocking phout / dropping encoder aggregators) and "
-         "the Run loop statement by statement; TLC proves within K=2x2 (3x2 thorough), Q in {1,2} that at Run return "
-         "the sink holds a permutation of the non-dropped reports, lines + drops = reports, flushed and closed, at "
-         "every cancel position after the last report. Shutdown.tla composes main/engine/pool/await/instances/"
-         "aggregator/Exit with a signal at every position: exited => flushed, closed, lines + drops = reports made "
-         "until the stop. The real code answers to the same operators (spec/Phout.tla): every line the real "
-         "aggregators hand to their sink must be PhoutLine(s) / decode to s of a not yet written report, the "
-         "counts must add up at Run return, and real processes stopped by SIGINT/SIGTERM must leave "
-         "lines + drops between the reports returned before the signal and the reports begun before exit. "
+    text="Aggregator.tla models reporters, the bounded queue (Mode: blocking phout/log, dropping encoder aggregators, "
+         "discard, in-memory test) and the Run loop statement by statement; TLC proves within K=2x2 (3x2 thorough), Q in "
+         "{1,2} that at Run return the sink holds a permutation of the non-dropped reports, lines + drops = reports, "
+         "flushed and closed, at every cancel position after the last report; with a sink that may fail (write error, "
+         "partial write, short count, failing Close) NoSilentLoss: the run returns the error, a run without error is "
+         "complete. Shutdown.tla composes main/engine/pool/await/instances/aggregator/Exit with signals at every "
+         "position (before signal.Notify, first, second, untrapped), the interrupt / tasks timers, slow or blocking sinks "
+         "and instances parked in a blocking Report: an exit may lack data ONLY after one of four forced causes "
+         "(ExitComplete with the exact Exempt set), every exit invents nothing, a stopped process ends (liveness). The "
+         "real code answers to the same operators (spec/Phout.tla): every line the real aggregators hand to their sink "
+         "must be PhoutLine(s) / decode to s of a not yet written report (tags with TAB/LF/CR as TagText says), the "
+         "counts must add up at Run return, a failing recording sink must make Run fail, and real processes stopped by "
+         "SIGINT/SIGTERM (one, two, during start-up, under back-pressure, with the grpc gun, with pools of different "
+         "kinds) or SIGHUP/SIGQUIT, or writing to /dev/full, must satisfy the final predicates. "
          "Beyond the statement: PoolAgg.tla composes the engine's await loop with the aggregator (the aggregator is "
          "cancelled only after every instance result was awaited; exactly which late reports a provider failure or "
          "user cancel may lose), validated on real engine runs whose life-cycle hooks are merged into the "
          "report/line trace (TracePoolAgg.tla); Sink.tla / TraceSink.tla: result files are created/truncated, never "
-         "appended, closed once (two pools with ONE file name tear and lose lines: known finding); the discard and "
-         "log aggregators and the buffer-size / flush-interval option bounds as further cases of Aggregator.tla.",
-    note="Bounds: design K<=3 reporters x 2 samples, Q<=2; conformance K in 1..8, queue 1..64, flush 1 ms..1 s, "
-         "int32 field values, tags without TAB/LF (phout), timestamps 2001..2038. Trusted: the syntactic line "
-         "splitter and the recording sinks of harness/cmd/vdrive/agg*.go, the counting wrapper of vpandora. Not "
-         "decided: sink write errors; reports made after the stop by shots still in flight (core.Aggregator "
-         "documents that they may be lost) are bounded, not required; forced exits (second signal, interrupt "
-         "timeout) are exempt by design.",
+         "appended, closed once (two pools with ONE file name tear and lose lines: known finding).",
+    note="Bounds: design K<=3 reporters x 2 samples, Q<=2; conformance K in 1..8, queue 1..64, flush 0 / 1 ms..1 s / 1 h, "
+         "buffer-size 0 / 1 / 4 KiB / 100 KB, int32 field values, timestamps 2001..2038. Trusted: the syntactic line "
+         "splitter and the recording / fault-injecting sinks of harness/cmd/vdrive/agg*.go, the counting wrapper of "
+         "vpandora. Fixed while building this check: SIGINT/SIGTERM exit without Engine.Wait(); swallowed final-flush / "
+         "close errors of phout and of the jsonlines encoder; TAB/LF/CR of a tag tearing the phout line. Not decided: "
+         "reports made after the stop by shots still in flight (core.Aggregator documents that they may be lost) are "
+         "bounded, not required; forced exits (second signal, a timer, SIGHUP/SIGQUIT, a signal before signal.Notify) "
+         "are exempt by design and only bounded; the µs window before signal.Notify could not be hit on the real binary.",
 )
 
 
@@ -482,10 +491,11 @@ def run(tier, v):
     }
     return "model_checking", cov, [
         "the syntactic line splitter, the recording sinks and the counting wrapper record faithfully (harness/cmd/vdrive/agg.go, aggsig.go, harness/cmd/vpandora)",
-        "sinks do not fail (write errors are outside the property)",
+        "a sink that fails does so like the injected ones (error, partial write, short count, failing Close; ENOSPC of /dev/full)",
         "reports made after the stop instant by shots still in flight may be lost (documented in core.Aggregator); the check "
         "requires lines + drops >= reports returned before the signal was sent and <= reports begun before exit",
-        "forced exits (second signal, interrupt timeout exceeded) are exempt; none is provoked",
+        "forced exits (second signal, interrupt / tasks timeout exceeded, SIGHUP/SIGQUIT, a signal sent before any report had "
+        "returned that kills by default action) are exempt from completeness and only bounded; they are provoked on purpose",
     ]
 
 
